@@ -112,6 +112,13 @@ pub fn run_c05(env: &mut Env) -> Outcome {
             let idx = count;
             count += 1;
             if idx == t1 || Some(idx) == t2 {
+                if name == "channel-join-confirm" {
+                    // which of the two joins this confirm answers follows the client's HashMap order, and what the client
+                    // makes of the damaged confirm may depend on it: the run is judged as always, but it is not bit-for-bit
+                    // repeatable and is kept out of the determinism proof (DESIGN 13.3)
+                    ctx.order_dependent = true;
+                    ctx.probe("join_confirm_damaged_order_dependent");
+                }
                 apply(ctx, name, w, &d2)
             } else {
                 MutOut::Unchanged
